@@ -354,19 +354,203 @@ theorem uniqueIds_histOf (ts : List Classifier.Tick) (h : ∀ t ∈ ts, (t.map (
   | none => exact List.nodup_nil
   | some t => exact h t (List.mem_of_getElem? hk)
 
-/-- Instance of the transfer: **no link is stamped share-weak (LowShare / NoTraffic) at 16 consecutive ticks of any
-run of the whole sender** — `C17_at_most_15_in_a_row` for the history of the run, whose input restriction
-(`uniqueIds`) is PROVED from `Inv` and `FreshRun`, for any events between the ticks. -/
-theorem C17_arm_at_most_15_in_a_row (v : Views F G) (hv : Faithful v) (s : Full F G) (es : List FEv)
+/-- The input restriction of `Props/C17.lean` holds of the history of every run: the slices `classify` is handed have
+pairwise distinct ids (`uniqueIds`, PROVED from `Inv` and `FreshRun`, for any events between the ticks), and therefore
+`C17.C17_at_most_15_in_a_row` applies to that history.  NOTE (audit 5, A2): `shareWeakAt (histOf …)` is about the
+verdicts of a FRESH filter fed the slices of the run; this theorem alone says nothing about a stamped flag, and for
+`s.cls ≠ State.init` the history's filter is not the filter of the run.  The statement about the STAMPED flags is
+`C17_arm_at_most_15_in_a_row` below (this one is its first step and keeps the old statement under an honest name). -/
+theorem C17_arm_history_uniqueIds (v : Views F G) (hv : Faithful v) (s : Full F G) (es : List FEv)
     (hinv : Inv s.sys) (hf : FreshRun s.sys (trace v s es)) (k id : Nat) :
     C17.uniqueIds (histOf (ticksOf v s es)) ∧
     ¬ (∀ j < 16, C17.shareWeakAt (histOf (ticksOf v s es)) (k + j) id) :=
   ⟨uniqueIds_histOf _ (ticks_nodup v hv s es hinv hf),
    C17.C17_at_most_15_in_a_row _ (uniqueIds_histOf _ (ticks_nodup v hv s es hinv hf)) k id⟩
 
--- non-vacuity: the example run from a fresh filter has two ticks, i.e. a history with two slices of three links
-example : (ticksOf exViews { exF with cls := Classifier.State.init } exEvs).map List.length = [3, 4] := by
-  decide +kernel
+/-! ### The STAMPED flags along a run (audit 5, A2) -/
+
+/-- The ticks of a run of the whole sender, in order: the state each tick STARTS from and its clock.  Index `n` is the
+`n`-th tick of the run, whatever other events (client / uplink / flush / reload …) lie between the ticks. -/
+def tickPts (v : Views F G) (s : Full F G) : List FEv → List (Full F G × Nat)
+  | [] => []
+  | .tick now :: es => (s, now) :: tickPts v (hkArm v s now).1 es
+  | .other e :: es => tickPts v (Full.step v s (.other e)).1 es
+
+theorem ticksOf_eq_map (v : Views F G) (s : Full F G) (es : List FEv) :
+    ticksOf v s es = (tickPts v s es).map fun p => clsTick v (afterHk p.1.sys p.2).1.links := by
+  induction es generalizing s with
+  | nil => rfl
+  | cons e es ih =>
+    cases e with
+    | tick now =>
+      show _ :: ticksOf v _ es = _ :: List.map _ (tickPts v _ es)
+      rw [ih]
+    | other e => exact ih _
+
+/-- The filter state the `n`-th tick of a run starts from: `nextState` folded over the slices of the earlier ticks. -/
+theorem tickPts_cls (v : Views F G) (s : Full F G) (es : List FEv) (n : Nat) (p : Full F G × Nat)
+    (h : (tickPts v s es)[n]? = some p) :
+    p.1.cls = ((ticksOf v s es).take n).foldl Classifier.nextState s.cls := by
+  induction es generalizing s n with
+  | nil => simp [tickPts] at h
+  | cons e es ih =>
+    cases e with
+    | tick now =>
+      cases n with
+      | zero =>
+        have hp : (s, now) = p := by simpa [tickPts] using h
+        subst hp; rfl
+      | succ n => exact ih _ n h
+    | other e => exact ih _ n h
+
+theorem range_map_histOf_take (ts : List Classifier.Tick) (n : Nat) (hn : n ≤ ts.length) :
+    (List.range n).map (histOf ts) = ts.take n := by
+  have h := range_map_histOf (ts.take n) (ts.drop n)
+  rwa [List.take_append_drop, List.length_take, Nat.min_eq_left hn] at h
+
+/-- **The `n`-th tick of a run from a fresh filter IS step `n` of the run's history**: its slice is `h n`, the
+filter state it starts from is `stateAt h n`, and the conn ids it sees are pairwise distinct. -/
+theorem tickPts_history (v : Views F G) (hv : Faithful v) (s : Full F G) (hs : s.cls = Classifier.State.init)
+    (es : List FEv) (hinv : Inv s.sys) (hf : FreshRun s.sys (trace v s es)) (n : Nat) (p : Full F G × Nat)
+    (hp : (tickPts v s es)[n]? = some p) :
+    histOf (ticksOf v s es) n = clsTick v (afterHk p.1.sys p.2).1.links ∧
+    p.1.cls = Classifier.stateAt (histOf (ticksOf v s es)) n ∧ (ids p.1.sys.links).Nodup := by
+  have hget : (ticksOf v s es)[n]? = some (clsTick v (afterHk p.1.sys p.2).1.links) := by
+    rw [ticksOf_eq_map, List.getElem?_map, hp]; rfl
+  have hlt : n < (ticksOf v s es).length := (List.getElem?_eq_some_iff.1 hget).1
+  refine ⟨?_, ?_, ?_⟩
+  · simp only [histOf, List.getD, hget, Option.getD_some]
+  · rw [stateAt_eq_foldl, range_map_histOf_take _ _ (Nat.le_of_lt hlt), tickPts_cls v s es n p hp, hs]
+  · have hnd := ticks_nodup v hv s es hinv hf _ (List.mem_of_getElem? hget)
+    have : (clsTick v (afterHk p.1.sys p.2).1.links).map (·.id) = ids (afterHk p.1.sys p.2).1.links := by
+      simp only [clsTick, ids, List.map_map]
+      exact List.map_congr_left fun l _ => hv.clsId l
+    rwa [this, afterHk_ids] at hnd
+
+/-- The classification entry `find` returns for the conn id of a link of the tick is the verdict computed for THAT
+link's readings (faithful views, pairwise distinct conn ids). -/
+theorem arm_find (v : Views F G) (hv : Faithful v) (s : Full F G) (now : Nat) (l : FLink F)
+    (hnd : (ids s.sys.links).Nodup) (hl : l ∈ (afterHk s.sys now).1.links) :
+    (Classifier.classify s.cls (clsTick v (afterHk s.sys now).1.links)).2.perLink.find? (·.id == l.core.connId) =
+      some (Classifier.verdictOf s.cls (clsTick v (afterHk s.sys now).1.links) (v.cls l)) := by
+  have hnd' : ((afterHk s.sys now).1.links.map (·.core.connId)).Nodup := by
+    have := afterHk_ids s.sys now
+    unfold ids at this; rw [this]; exact hnd
+  have hfind := find_map_nodup (afterHk s.sys now).1.links (·.core.connId)
+    (fun l => Classifier.verdictOf s.cls (clsTick v (afterHk s.sys now).1.links) (v.cls l)) (·.id)
+    (fun x => by rw [Classifier.verdictOf_id, hv.clsId]) hnd' l hl
+  have hper : (Classifier.classify s.cls (clsTick v (afterHk s.sys now).1.links)).2.perLink =
+      (afterHk s.sys now).1.links.map
+        (fun l => Classifier.verdictOf s.cls (clsTick v (afterHk s.sys now).1.links) (v.cls l)) := by
+    simp only [Classifier.classify, clsTick, List.map_map]; rfl
+  rw [hper]; exact hfind
+
+/-- **Conn id `id` leaves the arm run from `s` at `now` STAMPED share-weak**: a link with that conn id is present
+after the arm and carries `weak = true` (the flag selection reads), and the reason the classification of this tick
+reports for the id (`per_link.iter().find(..)`, the entry the stamping loop reads) is LowShare or NoTraffic.  (The
+reason is not stamped on the connection; it is what the arm publishes with the verdict.) -/
+def StampedShareWeak (v : Views F G) (s : Full F G) (now id : Nat) : Prop :=
+  (∃ l' ∈ (hkArm v s now).1.sys.links, l'.core.connId = id ∧ l'.weak = true) ∧
+  ∃ o, (Classifier.classify s.cls (clsTick v (afterHk s.sys now).1.links)).2.perLink.find? (·.id == id) = some o ∧
+    (o.reason = .LowShare ∨ o.reason = .NoTraffic)
+
+/-- A link after the arm is a link of the tick with its stamp, and its `weak` is the verdict for its readings. -/
+theorem hkArm_mem_weak (v : Views F G) (hv : Faithful v) (s : Full F G) (now : Nat) (l' : FLink F)
+    (hnd : (ids s.sys.links).Nodup) (hl' : l' ∈ (hkArm v s now).1.sys.links) :
+    ∃ l ∈ (afterHk s.sys now).1.links, l'.core.connId = l.core.connId ∧
+      l'.weak = (Classifier.verdictOf s.cls (clsTick v (afterHk s.sys now).1.links) (v.cls l)).weak := by
+  rw [hkArm_links] at hl'
+  obtain ⟨l, hl, rfl⟩ := List.mem_map.1 hl'
+  refine ⟨l, hl, stamped_connId _ _, ?_⟩
+  rw [stamped_weak, armStamp_weak, arm_find v hv s now l hnd hl]
+  rfl
+
+/-- A stamped share-weak verdict at the `n`-th tick of a run from a fresh filter is `shareWeakAt` of the run's
+history at `n`. -/
+theorem stampedShareWeak_history (v : Views F G) (hv : Faithful v) (s : Full F G)
+    (hs : s.cls = Classifier.State.init) (es : List FEv) (hinv : Inv s.sys) (hf : FreshRun s.sys (trace v s es))
+    (n id : Nat) (p : Full F G × Nat) (hp : (tickPts v s es)[n]? = some p)
+    (hsw : StampedShareWeak v p.1 p.2 id) : C17.shareWeakAt (histOf (ticksOf v s es)) n id := by
+  obtain ⟨h1, h2, hnd⟩ := tickPts_history v hv s hs es hinv hf n p hp
+  obtain ⟨⟨l', hl', hid, hw⟩, o, ho, hr⟩ := hsw
+  obtain ⟨l, hl, hid', hw'⟩ := hkArm_mem_weak v hv p.1 p.2 l' hnd hl'
+  have hidl : l.core.connId = id := hid'.symm.trans hid
+  rw [← hidl, arm_find v hv p.1 p.2 l hnd hl] at ho
+  have ho' : Classifier.verdictOf p.1.cls (clsTick v (afterHk p.1.sys p.2).1.links) (v.cls l) = o :=
+    Option.some.inj ho
+  refine ⟨v.cls l, ?_, (hv.clsId l).trans hidl, ?_, ?_⟩
+  · rw [h1]; exact List.mem_map.2 ⟨l, hl, rfl⟩
+  · unfold Classifier.verdictAt; rw [h1, ← h2, ← hw']; exact hw
+  · unfold Classifier.verdictAt; rw [h1, ← h2, ho']; exact hr
+
+/-- **No conn id is STAMPED share-weak at 16 consecutive ticks of any run of the whole sender** (audit 5, A2: the
+statement about the flags on the connections, not about an abstract history).  From a fresh filter
+(`WeakLinkFilter::new()`, `hs`), pairwise distinct conn ids, reloads drawing new ids; ANY events between the ticks
+(client / uplink / flush traffic, reloads, the pre-loop pass).  For every window of 16 consecutive ticks
+`k, …, k+15` of the run (`tickPts`: the state each tick starts from) and every conn id: it is NOT the case that at
+each of them a link with that id leaves the arm with `weak = true` and reported reason LowShare / NoTraffic.
+Composition of `C17_arm_history` (as `tickPts_history`: the run's filter IS the history's), `C17_arm_weak_is_verdict`
+(as `hkArm_mem_weak`: the stamped flag IS the verdict) and `C17.C17_at_most_15_in_a_row`.
+Limits: a window that is not entirely inside the run (fewer than `k + 16` ticks) is excluded by the hypothesis, not
+claimed; a filter that is not fresh at the start of the run is not covered (its stored streak may already be 14). -/
+theorem C17_arm_at_most_15_in_a_row (v : Views F G) (hv : Faithful v) (s : Full F G)
+    (hs : s.cls = Classifier.State.init) (es : List FEv) (hinv : Inv s.sys)
+    (hf : FreshRun s.sys (trace v s es)) (k id : Nat) :
+    ¬ (∀ j < 16, ∃ p, (tickPts v s es)[k + j]? = some p ∧ StampedShareWeak v p.1 p.2 id) := by
+  intro h
+  refine C17.C17_at_most_15_in_a_row _ (uniqueIds_histOf _ (ticks_nodup v hv s es hinv hf)) k id fun j hj => ?_
+  obtain ⟨p, hp, hsw⟩ := h j hj
+  exact stampedShareWeak_history v hv s hs es hinv hf _ id p hp hsw
+
+/-- **… and then three not-weak ticks.**  If conn id `id` is stamped share-weak at the 15 consecutive ticks
+`k, …, k+14` of a run (as above), then at each of the next three ticks `k+15+m` (`m < 3`) of the run at which the id
+is still present — and was present at the ticks `k+15, …` before it — EVERY link with that conn id leaves the arm
+with `weak = false`.  (`C17.C17_probation` through the arm; a link REMOVED in between has no "next verdicts", a link
+re-added under the same id starts fresh - hence the presence hypothesis.) -/
+theorem C17_arm_probation_three_ticks (v : Views F G) (hv : Faithful v) (s : Full F G)
+    (hs : s.cls = Classifier.State.init) (es : List FEv) (hinv : Inv s.sys)
+    (hf : FreshRun s.sys (trace v s es)) (k id : Nat)
+    (hrun : ∀ j < 15, ∃ p, (tickPts v s es)[k + j]? = some p ∧ StampedShareWeak v p.1 p.2 id)
+    (m : Nat) (hm : m < 3)
+    (hpres : ∀ u < m, ∃ p, (tickPts v s es)[k + 15 + u]? = some p ∧ id ∈ ids p.1.sys.links)
+    (p : Full F G × Nat) (hp : (tickPts v s es)[k + 15 + m]? = some p) :
+    ∀ l' ∈ (hkArm v p.1 p.2).1.sys.links, l'.core.connId = id → l'.weak = false := by
+  intro l' hl' hid
+  obtain ⟨h1, h2, hnd⟩ := tickPts_history v hv s hs es hinv hf _ p hp
+  obtain ⟨l, hl, hid', hw'⟩ := hkArm_mem_weak v hv p.1 p.2 l' hnd hl'
+  have hu := uniqueIds_histOf _ (ticks_nodup v hv s es hinv hf)
+  have key := C17.C17_probation (histOf (ticksOf v s es)) hu k id
+    (fun j hj => by
+      obtain ⟨q, hq, hsw⟩ := hrun j hj
+      exact stampedShareWeak_history v hv s hs es hinv hf _ id q hq hsw)
+    m hm
+    (fun u hu' => by
+      obtain ⟨q, hq, hin⟩ := hpres u hu'
+      obtain ⟨g1, -, -⟩ := tickPts_history v hv s hs es hinv hf _ q hq
+      refine Or.inr ?_
+      rw [← afterHk_ids q.1.sys q.2] at hin
+      obtain ⟨x, hx, hxid⟩ := List.mem_map.1 hin
+      exact ⟨v.cls x, by rw [g1]; exact List.mem_map.2 ⟨x, hx, rfl⟩, (hv.clsId x).trans hxid⟩)
+    (v.cls l) (by rw [h1]; exact List.mem_map.2 ⟨l, hl, rfl⟩) ((hv.clsId l).trans (hid'.symm.trans hid))
+  rw [hw']
+  have := key.1
+  unfold Classifier.verdictAt at this
+  rw [h1, ← h2] at this
+  exact this
+
+-- non-vacuity: the example run from a fresh filter has two ticks (at 5100 and 6100; a client datagram before, a
+-- reload and an uplink datagram between them), i.e. a history with two slices of three resp. four links, and the
+-- hypotheses `s.cls = init`, `Inv`, `FreshRun` of the two theorems hold of it.  The PREMISE "stamped share-weak at
+-- 15 ticks" cannot be exhibited inside Lean (the classifier front end is `Float`, opaque to `decide`; `exViews`
+-- reads 0.0 bit/s, so every Lean example tick is a bypass tick): that verdicts do change on the real code and the
+-- model alike is shown by the harness counters `hkarm-weak-stamped`, `hkarm-classified` (component `sys`).
+example : (ticksOf exViews { exF with cls := Classifier.State.init } exEvs).map List.length = [3, 4] ∧
+    (tickPts exViews { exF with cls := Classifier.State.init } exEvs).map (·.2) = [5100, 6100] ∧
+    ({ exF with cls := Classifier.State.init } : Full Int Rat).cls = Classifier.State.init ∧
+    Inv ({ exF with cls := Classifier.State.init } : Full Int Rat).sys ∧
+    FreshRun ({ exF with cls := Classifier.State.init } : Full Int Rat).sys
+      (trace exViews { exF with cls := Classifier.State.init } exEvs) :=
+  ⟨by decide +kernel, by decide +kernel, rfl, exF_inv, by decide +kernel⟩
 
 /-! ## 3. C16 at arm level -/
 
